@@ -35,7 +35,7 @@ CHECKS = {
 CHECKS.update({
  "C03": ("5.3", "History-wide oracle over every library instance's complete outbox in the adversarial simulations: one proposal/response hash per view, one commit and one pre-commit per height, no view change and no change-view request after the (pre)commit, retransmissions (direct or embedded in recovery messages) identical to the original, non-decreasing view of own top-level messages. One run in six starts from a directed prefix (a validator votes alone, crashes, the others change view, it restarts and gets its own vote back) before the seeded network takes over; restarted validators get their own earlier payloads echoed back."),
  "C04": ("5.4", "Precondition of every prepare response, commit/pre-commit and view increase re-evaluated at the instant it happens, from the node's tables and from the harness's independent record of authentic deliveries (exact and superset tests), with N not of the form 3F+1 included."),
- "C05": ("5.5", "Multi-height adversarial simulations with slow Reset, ledger sync that skips heights and changing validator sets: one decision per initialisation, whole-state fingerprint unchanged by every call on a decided node (except recovery replies), a full post-Reset audit including the unexported future-message cache (verif accessor), and: every payload for a future height (view) whose sender is a validator of that height is in the cache when OnReceive returns. Timing taken afresh: the timer armed by Start/Reset/a view change is compared with what a fresh detached instance of the library under test arms (no mirrored constants), and may be shorter only by the time spent at the previous height plus the longest round trip the incarnation can have measured."),
+ "C05": ("5.5", "Multi-height adversarial simulations with slow Reset, ledger sync that skips heights and changing validator sets: one decision per initialisation, whole-state fingerprint unchanged by every call on a decided node (except recovery replies), a full post-Reset audit including the unexported future-message cache (verif accessor), and: every payload for a future height whose sender is a validator of that height is kept (the sender's cache slot for that height is not empty when OnReceive returns; a pre-commit for a height without anti-MEV may be dropped), stays cached until its view comes, and a cached (pre)commit of the new height is in its slot after the Reset. Timing taken afresh: the timer armed by Start/Reset/a view change is compared with what a fresh detached instance of the library under test arms (no mirrored constants), and may be shorter only by the time spent at the previous height plus the longest round trip the incarnation can have measured."),
  "C07": ("5.7", "Per-instance automaton over callback/broadcast order in simulations with the anti-MEV extension on from genesis or switching on mid-run, failing ProcessPreBlock/ProcessBlock callbacks, early pre-commits, observers."),
  "C10": ("5.10", "Timer audit after every API call of every undecided validator in all adversarial simulations (armed, right height/view, non-negative duration, expiry not consumed), views capped at 8 per height."),
  "C12": ("5.12", "Obligation tracking per (node, height, view): union of RequestTx arguments vs OnTransaction supplies under the property's precondition, in simulations biased to differing mempools, invalid transactions, slow supply and cached next-view proposals (the nested case)."),
@@ -44,7 +44,7 @@ CHECKS.update({
  "C08": ("5.8", "Fault-free synchronous simulations (all honest, latency <= delta << T, exact timers) in which the tape permutes and duplicates the deliveries of every round and delays one node's Reset by up to 1.5 T so that next-height traffic is cached: every validator decides every height in view 0 on the same block and nobody broadcasts a change-view or recovery request."),
  "C09": ("5.9", "Bounded liveness in GST simulations: <=F validators silent from the start (incl. the first primaries), arbitrary cut sets/instants/durations, amnesia restarts at arbitrary points (between calls, inside Broadcast, inside ProcessBlock); after faults stop every live validator must advance 3 heights within 400 T; with silence from the start on a synchronous network the deciding view is <= the number of silent validators; a budgeted faulty validator may also stop for good (crash-stop); step rule: a validator that holds nothing of its view takes the authentic proposal out of a recovery message of that view. Protocol-level known findings L1, L2, L3 (commit-lock stalls) and V1 (one wasted view), each with a scripted reproduction."),
  "C15": ("5.15", "Every proposal of an honest-code primary is compared with an expectation recomputed from the clock reading and pool content the library obtained in that very call, under clock skew, backward/forward clock steps, unaligned clocks and increments 1, 7, 1000, 1e6, 7e6, 1e9, 999999937 ns; the primary's own block must carry the same values."),
- "C16": ("5.16", "Fault-free synchronous simulations with the maximum-block-time extension at ratios 1, 1.5, 2, 3, 8 (and off), N=1..7, transaction arrival processes (never / before the minimum / inside the extended wait / bursts) re-armed at every decided height: proposal spacing judged on simulated send instants (tolerance 4*delta), prompt proposal inside the OnNewTransaction call (also when the notified transaction has left every pool again by the time the library looks), no change-view/recovery request from a node whose pool is empty, no subscription without the extension."),
+ "C16": ("5.16", "Fault-free synchronous simulations with the maximum-block-time extension at ratios 1, 1.5, 2, 3, 8 (and off), N=1..7, transaction arrival processes (never / before the minimum / inside the extended wait / bursts) re-armed at every decided height: proposal spacing judged on simulated send instants (tolerance 4*delta), prompt proposal inside the OnNewTransaction call (when the notified transaction has left every pool again by the time the library looks, a prompt empty proposal and going on waiting are both accepted), no proposal later than the maximum block time after the previous one, no change-view/recovery request from a node whose pool is empty, no subscription without the extension."),
  "C11": ("5.11", "Half of the evaluations are hostile cluster runs in which, at tape-chosen points, one node is given an input that an independent classifier labels inadmissible (index outside the list, past height, proposal from a non-primary, proposal/response of a lower view, response from the primary, pre-commit while anti-MEV is off, unrequested transaction, timeout of another epoch) or a payload it already holds: whole-state fingerprint (exported tables, unexported state and future-message cache through the verif accessor, simulated timer) unchanged except the sender's last-seen entry, no broadcast (a recovery message is allowed for redeliveries), no timer call. The other half are API fuzz sequences (300-600 calls, 1-4 instances, arbitrary well-typed payloads, rejecting verification callbacks, failing ProcessBlock/ProcessPreBlock, validator set / own index / watch-only flag changing at Reset). Every call, organic or injected, runs under recover() with a development-mode logger, so DPanic assertions count as panics."),
  "C17": ("5.17", "The real example program (initNodes, updatePublicKeys, every node's Run loop, real timer.Timer, real ECDSA) runs for 60-120 simulated seconds inside a testing/synctest bubble under a seeded baton scheduler that picks which parked goroutine proceeds at every library log call; 1-7 validators, 0-2 watch-only nodes, optional blocked validator; every validator must reach at least half (a quarter with a blocked validator) of duration/5s heights and all nodes must approve the same blocks. Same-seed trace divergence (runtime select choice) is measured and reported; the oracle holds under every schedule."),
  "C18": ("5.18", "Real timer.Timer in a testing/synctest bubble (exact fake clock), tape-generated sequences of 3-40 Reset/Extend/sleep/poll/wait operations with zero, short and long durations, against a reference deadline model: never early, delivered exactly at the deadline to a waiting reader, immediate for zero duration, Height/View of the latest reset, nothing armed earlier is read before the new deadline. Fully deterministic; failing sequences shrink to a handful of operations."),
